@@ -9,7 +9,7 @@ static const char *const class_names[] = { C2_COMMON_CLASS_NAMES, NULL };
 
 /* weights: alloc 3, dup 3, splice 3, write 5, free 2, free_sharers 3, split 2, insert 2, append 2,
  * delete 2, truncate 2, resize 1, prepend 1, copy 1 */
-static const uint8_t optab[32] = { 0,0,0, 1,1,1, 2,2,2, 3,3,3,3,3, 4,4, 14,14,14, 5,5, 6,6, 7,7, 8,8, 9,9, 10, 11, 12 };
+static const uint8_t optab[32] = { 0,0,0, 1,1,1, 2,2,2, 3,3,3,3,15, 4,4, 14,14,14, 5,5, 6,6, 7,7, 8,8, 9,9, 10, 11, 12 };   /* 15: merge */
 
 static int run(const uint8_t *tp_, size_t len, struct vp_report *rep, unsigned flags)
 {
